@@ -582,4 +582,74 @@ theorem isort_spec (l : List E) (hn : (l.map (·.key)).Nodup) : SortedE vlt (iso
     simp only [List.map_append, List.map_cons, List.nodup_append, List.nodup_cons, List.mem_map, not_exists, not_and] at hn
     exact hn.2.1.1 y hy heq
 
+/-! ### `kway.Merge` (`keepTombstone = false`) -/
+
+theorem phase3_drop_aux (sort : List E → List E) (xs : List (VK × E)) (h : List T) (ls : List (List E)) (la : List (VK × E)) (m : List E) :
+    List.foldr (fun (kv : VK × E) kont3 => fun (h : List T) (lists : List (List E)) (latest : List (VK × E)) (merged : List E) =>
+        if kv.snd.tomb = true then kont3 h lists latest merged
+        else kont3 h lists latest (merged ++ [kv.snd]))
+      (fun h lists latest merged => sort merged) xs h ls la m = sort (m ++ (vals xs).filter (fun e => !e.tomb)) := by
+  induction xs generalizing m with
+  | nil => simp [vals]
+  | cons kv rest ih =>
+    simp only [List.foldr_cons]
+    cases ht : kv.2.tomb
+    · simp only [Bool.false_eq_true, ↓reduceIte]
+      rw [ih]
+      simp [vals, ht]
+    · simp only [↓reduceIte]
+      rw [ih]
+      simp [vals, ht]
+
+theorem phase3_drop (sort : List E → List E) (xs : List (VK × E)) (h : List T) (ls : List (List E)) (la : List (VK × E)) (m : List E) :
+    List.foldr (fun (kv : VK × E) kont3 => fun (h : List T) (lists : List (List E)) (latest : List (VK × E)) (merged : List E) =>
+        if (kv.snd.tomb && !false) = true then kont3 h lists latest merged
+        else kont3 h lists latest (merged ++ [kv.snd]))
+      (fun h lists latest merged => sort merged) xs h ls la m = sort (m ++ (vals xs).filter (fun e => !e.tomb)) := by
+  simp only [Bool.not_false, Bool.and_true]
+  exact phase3_drop_aux sort xs h ls la m
+
+/-- **the translated `kway.merge` with `keepTombstone = false` (`Merge`)** is the specification `LSM.merge`: the merged versions
+    without the tombstones -/
+theorem merge_drop_eq (sort : List E → List E)
+    (hsort : ∀ l : List E, (l.map (·.key)).Nodup → SortedE vlt (sort l) ∧ ∀ x, x ∈ sort l ↔ x ∈ l)
+    (dflt : E) (lists : List (List E)) (hs : ∀ l ∈ lists, SortedE vlt l) :
+    GenKway.merge (fun (e : E) => e.key) (fun e => e.tomb) less sort dflt false lists = LSM.merge lists := by
+  unfold GenKway.merge
+  dsimp only
+  rw [phase1_eq]
+  have hq0 : Q lists ([] : List (List E)).length (([] : List T), lists) :=
+    ⟨rfl, fun i => by simp, fun i => by simp, List.Pairwise.nil, by simp, fun x hx => (by cases hx), by simp [todo]⟩
+  have hq := q_fold dflt lists lists [] rfl _ hq0
+  simp only [List.length_nil] at hq
+  generalize hst : List.foldl (step1 dflt) (([] : List T), lists) lists.zipIdx = st at hq ⊢
+  rw [loop_eq dflt _ (fun h ls h' ls' la m => by rw [phase3_drop, phase3_drop])]
+  rw [phase3_drop]
+  simp only [List.nil_append]
+  have hi : HInv st.1 st.2 := ⟨hq.sorted, hq.nodup, fun x hx => by rw [hq.len]; exact hq.bound x hx⟩
+  have hrun := run_drain dflt ((List.map List.length lists).sum + 1) st.1 st.2 hi (by rw [hq.todo]; omega)
+  rw [absCs_init lists st hq] at hrun
+  obtain ⟨hli, hmem⟩ := mem_vals_foldl (drain dflt ((List.map List.length lists).sum + 1) st.1 st.2) [] ⟨fun _ h => (by cases h), by simp⟩
+  generalize List.foldl upd [] (drain dflt ((List.map List.length lists).sum + 1) st.1 st.2) = latest at hli hmem ⊢
+  have hnd : ((vals latest).map (·.key)).Nodup := by
+    have : (vals latest).map (·.key) = latest.map (·.1) := by
+      simp only [vals, List.map_map]
+      apply List.map_congr_left
+      intro kv hkv
+      exact (hli.key kv hkv).symm
+    rw [this]; exact hli.nodup
+  -- the values of `latest` are the members of `mergeVersions lists` (through any sort that meets the hypothesis: `isort`)
+  have hvals : ∀ x, x ∈ vals latest ↔ x ∈ mergeVersions lists := by
+    obtain ⟨hs1, hm1⟩ := isort_spec (vals latest) hnd
+    have := run_eq_spec lists hs hrun (isort (vals latest)) hs1 (by intro x; rw [hm1, hmem]; simp [vals])
+    intro x; rw [← this, hm1]
+  have hndf : (((vals latest).filter (fun e => !e.tomb)).map (·.key)).Nodup :=
+    hnd.sublist ((List.filter_sublist).map _)
+  obtain ⟨hsorted, hsmem⟩ := hsort _ hndf
+  unfold LSM.merge
+  apply sorted_ext _ _ hsorted ((mergeVersions_sorted lists).sublist List.filter_sublist)
+  intro x
+  rw [hsmem, List.mem_filter, List.mem_filter, hvals]
+
+
 end KwayTie
